@@ -319,6 +319,9 @@ type Runner struct {
 	poisoned   bool // a start with a foreign genesis block rewrote the database: what follows is not judged any more
 	op         int
 	Notes      map[string]int
+	Lookups    bool         // run the lookup oracle of C05 (lookups.go) after every step
+	lk         *lookupState // lookups.go
+	dur        *durable     // durable.go: the database lives on a strict in-memory file system with small memtables
 }
 
 func (r *Runner) fail(sig, detail string) {
@@ -349,6 +352,10 @@ func (r *Runner) reset(a map[string]string) string {
 	r.after, r.txOwner = map[string][]node.KV{}, map[string]uint32{}
 	r.sharedLost = false
 	r.poisoned = false
+	r.lk = nil
+	if r.Lookups {
+		r.lk = newLookupState()
+	}
 	keep := atoi(a["keep"])
 	cfg := node.Config{
 		NumValidators:        atoi(a["nv"]),
@@ -363,7 +370,7 @@ func (r *Runner) reset(a map[string]string) string {
 	if g, ok := a["gh"]; ok {
 		cfg.GenesisHeight = uint32(atoi(g))
 	}
-	n, err := node.New(cfg)
+	n, err := r.newNode(cfg, a) // durable.go: node.New(cfg) unless the reset line asks for a flushable database (dur=...)
 	if err != nil {
 		return "reset-failed " + err.Error()
 	}
@@ -371,6 +378,7 @@ func (r *Runner) reset(a map[string]string) string {
 	if hx(n.Genesis.Header.ID) != a["id"] {
 		return "genesis-mismatch"
 	}
+	r.see(n.Genesis)
 	n.DrainEvents()
 	r.fin = n.Finalized()
 	r.slotGridOracle() // C07: the executer's slot calculator against the LIP-0014 grid (slotoracle.go)
@@ -482,6 +490,8 @@ func (r *Runner) state(res string, evs []node.Event) string {
 		}
 	}
 	r.orderOracle()
+	r.noteEvents(evs)
+	r.lookupOracle(dump) // C05: every public lookup against the current chain (lookups.go)
 	r.prev = dump
 	return line
 }
@@ -751,6 +761,9 @@ func (r *Runner) step(op string) string {
 	if w[0] == "reset" {
 		return r.reset(a)
 	}
+	if r.lk != nil {
+		r.lk.skip = false
+	}
 	// arithmetic of the synchronisers: no node needed
 	switch w[0] {
 	case "gap":
@@ -774,6 +787,7 @@ func (r *Runner) step(op string) string {
 		if err != nil {
 			return "bad-block"
 		}
+		r.see(b)
 		if n.Tip() == nil {
 			// Executer.process / processValidated dereference Chain.LastBlock()
 			return r.state(map[string]string{"pv": "panic", "proc": "panic fc=none"}[w[0]], nil)
@@ -1004,6 +1018,8 @@ func (r *Runner) step(op string) string {
 		return "temps=" + strings.Join(parts, ",")
 	case "twin":
 		return r.twin()
+	case "settle":
+		return r.settle(a) // durable.go
 	}
 	return "bad-op"
 }
@@ -1047,6 +1063,9 @@ func (r *Runner) startInputs(a map[string]string) string {
 			class = "stored-height"
 		}
 		finBefore := n.Finalized()
+		if r.lk != nil {
+			r.lk.skip = true // a refused start leaves Chain / cache half-initialised; the recorder restarts next
+		}
 		gen, cfg, abi := n.Genesis, n.Cfg, n.ABI
 		err = n.RestartWith(node.StartInputs{Genesis: g, FreshABI: a["abi"] == "fresh"})
 		evs := n.DrainEvents()
@@ -1241,5 +1260,11 @@ func nats(l []uint32) string {
 // Replay is RunImpl for both properties.
 func Replay(c corr.Case) ([]string, []corr.Fail) {
 	r := &Runner{Notes: map[string]int{}}
+	return r.Run(c.Ops)
+}
+
+// ReplayLookups is Replay with the lookup oracle of C05 (lookups.go) after every step.
+func ReplayLookups(c corr.Case) ([]string, []corr.Fail) {
+	r := &Runner{Notes: map[string]int{}, Lookups: true}
 	return r.Run(c.Ops)
 }
